@@ -26,6 +26,7 @@ type Harness struct {
 	StepLimitIsViolation bool     // the harness asserts termination within MaxSteps
 	ExitIsViolation      bool     // os.Exit reaching the top is a violation
 	MaxSteps             int64    // per path (0: default)
+	Confirm              func(r *runner, args []int64, v gosym.PathOutcome) (bool, string) // property specific native confirmation (replaces the replay of the harness)
 	NativeRetries        int      // repeat the native replay up to n times (runtime-chosen schedules such as map order)
 	AllowInconclusive    []string // substrings of inconclusive reasons that are tolerated (stated in evidence)
 	Note                 string
@@ -532,7 +533,13 @@ func (r *runner) run1(ev *evidence) int {
 					exit = max(exit, 2)
 					continue
 				}
-				confirmed, how := r.replay(h, args, v)
+				var confirmed bool
+				var how string
+				if h.Confirm != nil {
+					confirmed, how = h.Confirm(r, args, v)
+				} else {
+					confirmed, how = r.replay(h, args, v)
+				}
 				// schedules the Go runtime picks itself (map iteration order): the model's order cannot
 				// be imposed on the native run, so the native run is repeated until the runtime picks one
 				// that shows the difference
